@@ -25,7 +25,7 @@ CLAIMS = {
    text="Every permutation (thorough; a sample in quick) of every validator subset per numeric type: the error variant returned equals the first rule, in written order, violated by the sanitized value, for ALL inputs and ALL bound values incl. contradictory bounds; wildcard-free match pins the enum shape; custom with/error returns the user's error value unchanged.",
    note="A missing/extra variant shows as BUILD-FAILED (exit 2), not as a VIOLATION. String validators: see C01 string section."),
  "C08": dict(design="§2 C08", engine="M",
-   text="PARTIAL: the macro's validation layer (trait admissibility tables of the 4 families, From-xor-TryFrom, numeric bound consistency, duplicates, len_char_min/max, lowercase+uppercase) is called directly (mirror crate #[path]-including /repo/nutype_macros/src) with symbolic configurations and literal values, against an independent reference table. In addition (observed, not solved): a spelling-layer probe - one cargo check pass plus one run of the generated unit tests over ~100 declarations (literal bounds that exclude each other in every literal spelling, invalid regex literals beside other validators, expression bounds/defaults the macro cannot evaluate, each with a consistent control): refused at compile time, or caught by the generated test, as the property's two clauses demand. The rest of the parse layer (inner-field visibility, foreign attributes, unknown names, feature gates, name clashes) is NOT covered.",
+   text="PARTIAL: the macro's validation layer (trait admissibility tables of the 4 families, From-xor-TryFrom, numeric bound consistency, duplicates, len_char_min/max, lowercase+uppercase) is called directly (mirror crate #[path]-including /repo/nutype_macros/src) with symbolic configurations and literal values, against an independent reference table. In addition (observed, not solved): a spelling-layer probe - one cargo check pass plus one run of the generated unit tests over ~100 declarations (literal bounds that exclude each other in every literal spelling, invalid regex literals beside other validators, expression bounds/defaults the macro cannot evaluate, a literal bound contradicting an expression bound, each with a consistent control): refused at compile time, or caught by the generated test, as the property's two clauses demand. The rest of the parse layer (inner-field visibility, foreign attributes, unknown names, feature gates, name clashes) is NOT covered.",
    note="Rejection is observed by stubbing syn::Error::new. Needs the cfg(nutype_verif) hooks. A change confined to the uncovered part of the parse layer (attribute grammar beyond C02's refused layouts, feature gates, foreign attributes) is not detected. The spelling-layer probe is enumeration of concrete declarations judged by rustc/cargo test, not a solver result."),
  "C09": dict(design="§2 C09",
    text="Integers: generated Arbitrary + real arbitrary::Unstructured::int_in_range decided for ALL byte buffers (<= min(2n, n+2) bytes incl. empty) and ALL bounds (64/128-bit: valid range <= 2^16) - no panic, value valid. Floats: all buffers <= 2n bytes; one-sided bounds symbolic in the benign region |b|<=16, two-sided bounds from a catalogue of concrete pairs; other/generic: inner arbitrary + new. plus harnesses whose first drawn float is a concrete non-finite pattern; other/generic: inner arbitrary + new. String Arbitrary in a restricted form: declarations with a constant target length (len_char_min == len_char_max, or not_empty + len_char_max = 1), byte streams of 4-byte words encoding ASCII characters (concrete whitespace, symbolic fillers), String::push stubbed by a one-byte ASCII model; plus case-expansion streams (a drawn character whose case mapping yields two characters, against len_char_max). Five genuine float defects are recorded as known findings with region-restricted twin harnesses.",
